@@ -102,6 +102,15 @@ fn generic<S: Scheme>(ctx: &mut Ctx, rng: &mut ChaCha20Rng) {
             }
             let r = commit::<S>(&tx.w.ck, std::slice::from_ref(&big), 1);
             refused(ctx, "degree-beyond-key", "commit", json!({"cfg": tx.w.cfg.json(), "degree": big.degree(), "supported": sup}), r);
+            // oversized polynomials with low-order zeros (x^k * q, a single top monomial): skipping leading zeros must
+            // not shrink the degree that is compared with the key
+            for shape in [Shape::LowZeros, Shape::TopMonomial] {
+                let bz: LPoly<S> = LabeledPolynomial::new("big".into(), S::gen_poly(&cfg2, shape, sup + extra, rng), None, None);
+                if bz.degree() > sup {
+                    let r = commit::<S>(&tx.w.ck, std::slice::from_ref(&bz), 1);
+                    refused(ctx, "degree-beyond-key", "commit", json!({"cfg": tx.w.cfg.json(), "degree": bz.degree(), "supported": sup, "shape": format!("{:?}", shape)}), r);
+                }
+            }
         }
     }
     // ---- hiding beyond the key, hiding without RNG
@@ -335,6 +344,12 @@ fn direct(ctx: &mut Ctx, rng: &mut ChaCha20Rng) {
         let desc = json!({"max_degree": w.max_degree, "supported": w.supported, "hiding_supported": w.hiding_sup});
         let big = uni_poly::<Fr>(Shape::Full, w.supported + 1, rng);
         refused(ctx, "degree-beyond-key", "KZG10::commit", desc.clone(), attempt(|| K::commit(&powers, &big, None, None)));
+        for shape in [Shape::LowZeros, Shape::TopMonomial] {
+            let bz = uni_poly::<Fr>(shape, w.supported + 1 + below(rng, 2), rng);
+            if ark_poly::Polynomial::degree(&bz) > w.supported {
+                refused(ctx, "degree-beyond-key", "KZG10::commit", desc.clone(), attempt(|| K::commit(&powers, &bz, None, None)));
+            }
+        }
         let p = uni_poly::<Fr>(Shape::Full, w.supported, rng);
         refused(ctx, "hiding-beyond-key", "KZG10::commit", desc.clone(), attempt(|| K::commit(&powers, &p, Some(w.hiding_sup + 1), Some(rng))));
         refused(ctx, "hiding-without-rng", "KZG10::commit", desc.clone(), attempt(|| K::commit(&powers, &p, Some(1), None)));
